@@ -174,6 +174,21 @@ func (r *runner) note(o *Outcome) {
 	}
 	if len(c.Prelude) > 0 {
 		r.res.Probes["run-with-earlier-call"]++
+		if c.Prelude[0].SameSource && c.Carrier == "" {
+			r.res.Probes["earlier-call-on-the-same-source-object"]++
+		}
+		if k := c.Prelude[0].Fault.Kind; k != "" && k != "none" {
+			r.res.Probes["earlier-call-cut-short-by-a-failing-source"]++
+		}
+	}
+	if c.Carrier != "" && o.Stream != nil && o.Stream.Len() >= 0 {
+		r.res.Probes["carrier-"+c.Carrier]++
+		if c.CarrierOffset > 0 {
+			r.res.Probes["carrier-positioned-behind-a-header"]++
+		}
+	}
+	if o.Src.EOFWithData > 0 {
+		r.res.Probes["eof-delivered-with-the-last-bytes"]++
 	}
 	r.res.Probes["policy-"+c.Policy.Kind]++
 	if c.Workers > 0 && Info(c.Workflow).Fast {
